@@ -39,9 +39,21 @@ def REC(ctor, *fields):
     return ("rec", ctor, fields)
 
 
+def SUM(*alts):
+    """alts: (tag, constructor, field types)"""
+    return ("sum", {a[0]: (a[1], a[2]) for a in alts})
+
+
 STR = L(Z)
 CFROW = REC("Build_cf_row", Z, Z, L(Z), B, Z)
 ZROW = P(Z, Z)
+
+FNAME = SUM((0, "NChunk", [Z, NAT, B]), (1, "NLevel", [NAT, B]), (2, "NResult", [Z, B, NAT]), (3, "NPin", [Z]),
+            (4, "NTmpTsv", [Z]), (5, "NOther", [Z]))
+FSCOLL = REC("Build_fs_coll", Z, L(CFROW), O(P(L(Z), L(CFROW))))
+FSCFG = REC("Build_fs_cfg", B, NAT, B, NAT, B, B, B, B, L(FSCOLL))
+CROW_IN = P(CFROW, Q)
+CROW_OUT = P(("proj", "cf_id", CFROW), Q)
 
 # entry -> (argument types, Coq function, result type)
 SPEC = {
@@ -64,8 +76,11 @@ SPEC = {
     "c02.split": ([L(Z), NAT], "bw_split", R(L(L(NAT)))),
     "c02.plan": ([O(NAT), L(NAT)], "bw_subset_plan", R(L(O(NAT)))),
     "c10.chunks": ([L(Z), L(Z), NAT], "pc_chunks_with_ids", L(L(Z))),
+    "c09.run": ([FSCFG, O(NAT), L(P(FNAME, L(CROW_IN)))], "fs_run", O(L(P(FNAME, L(CROW_OUT))))),
+    "c09.trace": ([FSCFG], "fs_run_trace", L(P(NAT, FNAME))),
+    "c09.verify": ([B, Z, L(P(FNAME, STR))], "fs_verify", O(L(P(FNAME, STR)))),
 }
-IMPORTS = "Model.Base Model.Tdc Model.Merge Model.Digest Model.PinTsv Model.Confidence Model.Calibrate Model.Brew Model.PinCols"
+IMPORTS = "Model.Base Model.Tdc Model.Merge Model.Digest Model.PinTsv Model.Confidence Model.Calibrate Model.Brew Model.PinCols Model.Fs"
 
 
 class _Toks:
@@ -112,6 +127,10 @@ def parse(t, ty):
         return [parse(t, f) for f in ty[2]]
     if k == "proj":          # the driver printed one field of a record
         return parse(t, Z)
+    if k == "sum":
+        tag = int(t.nxt())
+        ctor, fields = ty[1][tag]
+        return (tag, [parse(t, f) for f in fields])
     raise ValueError(ty)
 
 
@@ -145,12 +164,15 @@ def lit(v, ty):
         return "(%s %s)" % (ty[1], " ".join(lit(x, f) for x, f in zip(v, ty[2])))
     if k == "proj":
         return "(%d)%%Z" % v
+    if k == "sum":
+        ctor, fields = ty[1][v[0]]
+        return "(%s %s)" % (ctor, " ".join(lit(x, f) for x, f in zip(v[1], fields))) if fields else ctor
     raise ValueError(ty)
 
 
 def norm(ty):
     """Coq function that brings a computed value into the form the driver prints"""
-    if ty in (Z, NAT, B) or ty[0] in ("enum", "rec"):
+    if ty in (Z, NAT, B) or ty[0] in ("enum", "rec", "sum"):
         return "(fun x => x)"
     if ty == Q:
         return "Qred"
